@@ -211,6 +211,12 @@ async fn exec_line(t: &[String]) -> Result<(String, Vec<OracleFail>), String> {
             let said_ok = replies.len() >= 12 && replies[2..] == [5, 0, 0, 1, 0, 0, 0, 0, 0, 0];
             if tunnel && cmd != 1 { fails.push(OracleFail { sig: "tunnel_for_non_connect/socks5".into(), detail: format!("command {cmd} was tunnelled to the target") }); }
             if said_ok != tunnel { fails.push(OracleFail { sig: "reply_does_not_follow_tunnel/socks5".into(), detail: format!("'succeeded' reply: {said_ok}, tunnel established: {tunnel} (command {cmd}, target {up})") }); }
+            // O (C16): a well-formed greeting offering 'no authentication' followed by a CONNECT to a listening target is served,
+            // however the two messages are packed into TCP segments (here: one write)
+            let greet_ok = greet.len() >= 3 && greet[0] == 5 && greet[1] > 0 && greet.len() == 2 + greet[1] as usize && greet[2..].contains(&0);
+            if greet_ok && cmd == 1 && *up == "up" && !(tunnel && said_ok) {
+                fails.push(OracleFail { sig: "valid_connect_not_served/socks5".into(), detail: format!("greeting {} + CONNECT to the listening target in one write: replies {}, tunnel established: {tunnel}", hex(&greet), hex(&replies)) });
+            }
             if tunnel && delivered != early { fails.push(OracleFail { sig: "early_bytes_lost/socks5".into(), detail: format!("{} bytes followed the request, the target received {}", early.len(), delivered.len()) }); }
             w.stop().await;
             Ok((format!("replies={} tunnel={} delivered={}", hex(&replies), tunnel as u8, hex(&delivered)), fails))
